@@ -236,8 +236,10 @@ Proof.
 Qed.
 Lemma blen_padv_mod4 : forall v, blen (padv v) mod 4 = 0.
 Proof. intros. rewrite blen_padv. unfold padded_len. pose proof (blen_nonneg v). lia. Qed.
-Lemma blen_param_bytes : forall pid v, blen (param_bytes pid v) = 4 + blen v.
-Proof. intros. unfold param_bytes. rewrite !blen_app, !blen_le_bytes. lia. Qed.
+Lemma blen_enc16 : forall be x, blen (enc16 be x) = 2.
+Proof. intros [|] x; reflexivity. Qed.
+Lemma blen_param_bytes : forall be pid v, blen (param_bytes be pid v) = 4 + blen v.
+Proof. intros. unfold param_bytes. rewrite !blen_app, !blen_enc16. lia. Qed.
 
 Lemma w_u16_aligned : forall v pos, pos mod 2 = 0 -> w_u16 v pos = le_bytes 2 v.
 Proof.
@@ -247,7 +249,7 @@ Qed.
 
 Lemma write_cdr_parameter_eq : forall buf pid (w : wr),
   blen buf mod 4 = 0 ->
-  write_cdr_parameter buf pid w = buf ++ param_bytes pid (padv (w (blen buf + 4))).
+  write_cdr_parameter buf pid w = buf ++ param_bytes false pid (padv (w (blen buf + 4))).
 Proof.
   intros buf pid w Hb. unfold write_cdr_parameter.
   assert (E0 : (w_u16 (wrap_u16 pid) +++ w_u16 0) (blen buf) = le_bytes 2 (wrap_u16 pid) ++ [0; 0]).
@@ -275,7 +277,7 @@ Proof.
     by (rewrite (blen_app _ [0; 0]); reflexivity).
   rewrite (app_assoc (buf ++ le_bytes 2 (wrap_u16 pid)) [0; 0] (padv V)).
   rewrite drop_app_exact.
-  unfold param_bytes. rewrite EV, <- !app_assoc. reflexivity.
+  unfold param_bytes, enc16. rewrite EV, <- !app_assoc. reflexivity.
 Qed.
 
 Lemma write_cdr_parameter_aligned : forall buf pid (w : wr),
@@ -291,24 +293,25 @@ Proof. reflexivity. Qed.
 Lemma le_val_2 : forall x, 0 <= x < 65536 -> x mod 256 + 256 * ((x / 256) mod 256 + 256 * 0) = x.
 Proof. intros. lia. Qed.
 
-
-Lemma pl_next_param : forall pid v rest, pid_ok pid -> blen v <= 65535 ->
-  pl_next false (param_bytes pid v ++ rest) = PItem pid v rest.
+(* in either endianness *)
+Lemma pl_next_param : forall be pid v rest, pid_ok pid -> blen v <= 65535 ->
+  pl_next be (param_bytes be pid v ++ rest) = PItem pid v rest.
 Proof.
-  intros pid v rest [Hr Hn1] Hl. unfold param_bytes. rewrite !le_bytes_2.
-  cbn [app pl_next int_val le_val].
+  intros be pid v rest [Hr Hn1] Hl. unfold param_bytes, enc16. rewrite !le_bytes_2.
   pose proof (blen_nonneg v) as Hv0.
-  rewrite (le_val_2 (wrap_u16 pid)) by (pose proof (wrap_u16_range pid); change (256 ^ 2) with 65536 in *; lia).
-  rewrite (le_val_2 (wrap_u16 (blen v))) by (pose proof (wrap_u16_range (blen v)); change (256 ^ 2) with 65536 in *; lia).
-  rewrite (wrap_i16_u16 pid Hr), (wrap_u16_small (blen v)) by lia.
-  replace (pid =? 1) with false by (symmetry; apply Z.eqb_neq; assumption).
-  rewrite (shorter_app_false v rest (blen v) eq_refl). cbn [orb].
-  rewrite take_app_exact, drop_app_exact. reflexivity.
+  assert (E1 : forall x, 0 <= x < 65536 -> int_val be (if be then rev [x mod 256; (x / 256) mod 256] else [x mod 256; (x / 256) mod 256]) = x).
+  { intros x Hx. destruct be; cbn [rev app int_val le_val]; apply le_val_2; assumption. }
+  assert (Hp : 0 <= wrap_u16 pid < 65536) by (pose proof (wrap_u16_range pid); change (256 ^ 2) with 65536 in *; lia).
+  assert (Hlen : 0 <= wrap_u16 (blen v) < 65536) by (pose proof (wrap_u16_range (blen v)); change (256 ^ 2) with 65536 in *; lia).
+  pose proof (E1 _ Hp) as Ep. pose proof (E1 _ Hlen) as El.
+  destruct be; cbn [rev app] in *; cbn [pl_next]; rewrite Ep, El;
+    rewrite (wrap_i16_u16 pid Hr), (wrap_u16_small (blen v)) by lia;
+    replace (pid =? 1) with false by (symmetry; apply Z.eqb_neq; assumption);
+    rewrite (shorter_app_false v rest (blen v) eq_refl); cbn [orb];
+    rewrite take_app_exact, drop_app_exact; reflexivity.
 Qed.
 Lemma pl_next_sentinel : forall junk, pl_next false ([1; 0; 0; 0] ++ junk) = PEnd.
 Proof. intros junk; reflexivity. Qed.
-Lemma pl_header_is_param : PL_HEADER = param_bytes 768 [].
-Proof. reflexivity. Qed.
 
 (* ------------------------------------------------------------------ fuel is irrelevant *)
 Lemma length_skipn_le : forall {A} n (l : list A), (length (skipn n l) <= length l)%nat.
@@ -342,74 +345,72 @@ Proof.
 Qed.
 
 Lemma pl_seek_step : forall be pid d,
-  pl_seek be pid d = match pl_next be d with
+  pl_seek_body be pid d = match pl_next be d with
                      | PEnd => Ok None
                      | PErr e => Err e
-                     | PItem p v rest => if p =? pid then Ok (Some v) else pl_seek be pid rest
+                     | PItem p v rest => if p =? pid then Ok (Some v) else pl_seek_body be pid rest
                      end.
 Proof.
-  intros. unfold pl_seek at 1. cbn [pl_seek_f].
+  intros. unfold pl_seek_body at 1. cbn [pl_seek_f].
   destruct (pl_next be d) as [| |p v rest] eqn:E; try reflexivity.
   destruct (p =? pid); [reflexivity|].
-  pose proof (pl_next_shorter _ _ _ _ _ E). unfold pl_seek. apply pl_seek_f_fuel; lia.
+  pose proof (pl_next_shorter _ _ _ _ _ E). unfold pl_seek_body. apply pl_seek_f_fuel; lia.
 Qed.
 Lemma pl_all_step : forall {A} be pid (dec : bytes -> res A) d,
-  pl_all be pid dec d = match pl_next be d with
+  pl_all_body be pid dec d = match pl_next be d with
                         | PEnd => Ok []
                         | PErr e => Err e
                         | PItem p v rest =>
-                            if p =? pid then a <- dec v ;; l <- pl_all be pid dec rest ;; Ok (a :: l)
-                            else pl_all be pid dec rest
+                            if p =? pid then a <- dec v ;; l <- pl_all_body be pid dec rest ;; Ok (a :: l)
+                            else pl_all_body be pid dec rest
                         end.
 Proof.
-  intros. unfold pl_all at 1. cbn [pl_all_f].
+  intros. unfold pl_all_body at 1. cbn [pl_all_f].
   destruct (pl_next be d) as [| |p v rest] eqn:E; try reflexivity.
-  pose proof (pl_next_shorter _ _ _ _ _ E). unfold pl_all.
+  pose proof (pl_next_shorter _ _ _ _ _ E). unfold pl_all_body.
   rewrite (pl_all_f_fuel (length d) (S (length rest)) be pid dec rest) by lia. reflexivity.
 Qed.
 
 (* ------------------------------------------------------------------ iterating over well-formed parameters *)
-
-Lemma params_bytes_app : forall a b, params_bytes (a ++ b) = params_bytes a ++ params_bytes b.
-Proof. induction a as [|it a IH]; intros; cbn [params_bytes app]; [reflexivity|]. rewrite IH, app_assoc. reflexivity. Qed.
+Lemma params_bytes_app : forall be a b, params_bytes be (a ++ b) = params_bytes be a ++ params_bytes be b.
+Proof. intros be. induction a as [|it a IH]; intros; cbn [params_bytes app]; [reflexivity|]. rewrite IH, app_assoc. reflexivity. Qed.
 Lemma matches_app : forall pid a b, matches pid (a ++ b) = matches pid a ++ matches pid b.
 Proof.
   induction a as [|it a IH]; intros; cbn [matches app]; [reflexivity|].
   destruct (fst it =? pid); rewrite IH; reflexivity.
 Qed.
 
-Lemma pl_seek_items : forall pid items tail, Forall item_ok items ->
-  pl_seek false pid (params_bytes items ++ tail)
-  = match matches pid items with v :: _ => Ok (Some v) | [] => pl_seek false pid tail end.
+Lemma pl_seek_items : forall be pid items tail, Forall item_ok items ->
+  pl_seek_body be pid (params_bytes be items ++ tail)
+  = match matches pid items with v :: _ => Ok (Some v) | [] => pl_seek_body be pid tail end.
 Proof.
-  intros pid items tail H. induction H as [|it items [Hp Hl] _ IH]; cbn [params_bytes matches app].
+  intros be pid items tail H. induction H as [|it items [Hp Hl] _ IH]; cbn [params_bytes matches app].
   - reflexivity.
-  - rewrite pl_seek_step, <- app_assoc, (pl_next_param _ _ _ Hp Hl).
+  - rewrite pl_seek_step, <- app_assoc, (pl_next_param _ _ _ _ Hp Hl).
     destruct (fst it =? pid); [reflexivity|]. exact IH.
 Qed.
-Lemma pl_all_items : forall {A} pid (dec : bytes -> res A) items tail, Forall item_ok items ->
-  pl_all false pid dec (params_bytes items ++ tail)
-  = (x <- mapM dec (matches pid items) ;; y <- pl_all false pid dec tail ;; Ok (x ++ y)).
+Lemma pl_all_items : forall {A} be pid (dec : bytes -> res A) items tail, Forall item_ok items ->
+  pl_all_body be pid dec (params_bytes be items ++ tail)
+  = (x <- mapM dec (matches pid items) ;; y <- pl_all_body be pid dec tail ;; Ok (x ++ y)).
 Proof.
-  intros A pid dec items tail H. induction H as [|it items [Hp Hl] _ IH]; cbn [params_bytes matches app].
-  - cbn [mapM bind]. destruct (pl_all false pid dec tail); reflexivity.
-  - rewrite pl_all_step, <- app_assoc, (pl_next_param _ _ _ Hp Hl).
+  intros A be pid dec items tail H. induction H as [|it items [Hp Hl] _ IH]; cbn [params_bytes matches app].
+  - cbn [mapM bind]. destruct (pl_all_body be pid dec tail); reflexivity.
+  - rewrite pl_all_step, <- app_assoc, (pl_next_param _ _ _ _ Hp Hl).
     destruct (fst it =? pid); [|exact IH].
     cbn [mapM]. rewrite IH. destruct (dec (snd it)); cbn [bind]; try reflexivity.
     destruct (mapM dec (matches pid items)); cbn [bind]; try reflexivity.
-    destruct (pl_all false pid dec tail); reflexivity.
+    destruct (pl_all_body be pid dec tail); reflexivity.
 Qed.
-Lemma pl_seek_sentinel : forall pid junk, pl_seek false pid ([1; 0; 0; 0] ++ junk) = Ok None.
+Lemma pl_seek_sentinel : forall pid junk, pl_seek_body false pid ([1; 0; 0; 0] ++ junk) = Ok None.
 Proof. intros. rewrite pl_seek_step, pl_next_sentinel. reflexivity. Qed.
-Lemma pl_all_sentinel : forall {A} pid (dec : bytes -> res A) junk, pl_all false pid dec ([1; 0; 0; 0] ++ junk) = Ok [].
+Lemma pl_all_sentinel : forall {A} pid (dec : bytes -> res A) junk, pl_all_body false pid dec ([1; 0; 0; 0] ++ junk) = Ok [].
 Proof. intros. rewrite pl_all_step, pl_next_sentinel. reflexivity. Qed.
 
 (* ------------------------------------------------------------------ into_bytes as a list of parameters *)
-
 Lemma write_vals_eq : forall pid (vs : list wr) buf,
   (forall v, In v vs -> periodic v) -> blen buf mod 4 = 0 ->
   fold_left (fun b' v => write_cdr_parameter b' pid v) vs buf
-    = buf ++ params_bytes (map (fun v : wr => (pid, padv (v 0))) vs)
+    = buf ++ params_bytes false (map (fun v : wr => (pid, padv (v 0))) vs)
   /\ blen (fold_left (fun b' v => write_cdr_parameter b' pid v) vs buf) mod 4 = 0.
 Proof.
   intros pid vs. induction vs as [|v vs IH]; intros buf Hp Hb; cbn [fold_left map params_bytes].
@@ -423,7 +424,7 @@ Proof.
 Qed.
 Lemma write_rows_eq : forall {R} (wt : list (wrow R)) (r : R) buf,
   (forall row v, In row wt -> In v (w_emit row r) -> periodic v) -> blen buf mod 4 = 0 ->
-  write_rows wt r buf = buf ++ params_bytes (items_of wt r) /\ blen (write_rows wt r buf) mod 4 = 0.
+  write_rows wt r buf = buf ++ params_bytes false (items_of wt r) /\ blen (write_rows wt r buf) mod 4 = 0.
 Proof.
   intros R wt r. unfold write_rows, items_of.
   induction wt as [|row wt IH]; intros buf Hp Hb; cbn [fold_left flat_map params_bytes].
@@ -435,19 +436,18 @@ Proof.
     split; [|exact A']. rewrite E', E, params_bytes_app, <- app_assoc. reflexivity.
 Qed.
 
+(* header, the parameters of the table, sentinel *)
 Lemma tbl_into_bytes_eq : forall {R} (wt : list (wrow R)) (r : R),
   (forall row v, In row wt -> In v (w_emit row r) -> periodic v) ->
-  tbl_into_bytes wt r = params_bytes ((768, []) :: items_of wt r) ++ [1; 0; 0; 0].
+  tbl_into_bytes wt r = PL_HEADER ++ params_bytes false (items_of wt r) ++ [1; 0; 0; 0].
 Proof.
   intros R wt r Hp. unfold tbl_into_bytes, write_sentinel.
   destruct (write_rows_eq wt r PL_HEADER Hp eq_refl) as [E A].
   assert (S : (w_u16 1 +++ w_u16 0) (blen (write_rows wt r PL_HEADER)) = [1; 0; 0; 0]).
   { unfold wseq. rewrite (w_u16_aligned 1) by lia. rewrite w_u16_aligned; [reflexivity|].
     change (blen (le_bytes 2 1)) with 2. lia. }
-  rewrite S, E. cbn [params_bytes fst snd]. rewrite <- pl_header_is_param. reflexivity.
+  rewrite S, E, <- app_assoc. reflexivity.
 Qed.
-
-(* ------------------------------------------------------------------ what a table emits under one pid *)
 
 Lemma matches_map_same : forall pid (vs : list wr),
   matches pid (map (fun v : wr => (pid, padv (v 0))) vs) = map (fun v : wr => padv (v 0)) vs.
@@ -490,60 +490,62 @@ Proof.
   rewrite forallb_forall in Hf1. apply Z.leb_le. apply Hf1. assumption.
 Qed.
 
-Lemma pl_hdr_into_bytes : forall items tail, pl_hdr (params_bytes ((768, []) :: items) ++ tail) = (0, 3).
-Proof. reflexivity. Qed.
+(* a 4-byte header followed by anything *)
+Lemma pl_hdr_app4 : forall hdr rest, blen hdr = 4 -> pl_hdr (hdr ++ rest) = pl_hdr hdr.
+Proof.
+  intros hdr rest H. destruct hdr as [|a [|b [|c [|d [|x hdr]]]]]; cbn in H; try lia. reflexivity.
+Qed.
+Lemma drop4_app4 : forall hdr rest, blen hdr = 4 -> drop 4 (hdr ++ rest) = rest.
+Proof. intros. apply drop_app_n. assumption. Qed.
 
 Lemma bind_ok_r : forall {A} (x : res A), (a <- x ;; Ok a) = x.
 Proof. destruct x; reflexivity. Qed.
 
 Theorem seek_into_bytes : forall {R} (wt : list (wrow R)) (r : R) pid,
-  table_ok wt r -> pid <> 768 ->
+  table_ok wt r ->
   seek_to_pid (tbl_into_bytes wt r) pid = Ok (hd_error (emitted wt r pid)).
 Proof.
-  intros R wt r pid [Hnd Hp Hper Hf] H768. unfold seek_to_pid.
-  rewrite (tbl_into_bytes_eq wt r Hper), pl_hdr_into_bytes. cbn [hdr_endianness snd Z.eqb Pos.eqb bind].
-  rewrite pl_seek_items.
-  2:{ constructor; [unfold item_ok, pid_ok; cbn [fst snd]; rewrite blen_nil; lia|apply tbl_fits_items; assumption]. }
-  cbn [matches fst snd]. replace (768 =? pid) with false by (symmetry; apply Z.eqb_neq; lia).
+  intros R wt r pid [Hnd Hp Hper Hf]. unfold seek_to_pid, pl_seek.
+  rewrite (tbl_into_bytes_eq wt r Hper), (pl_hdr_app4 PL_HEADER _ eq_refl), (drop4_app4 PL_HEADER _ eq_refl).
+  cbn [PL_HEADER pl_hdr nth hdr_endianness snd Z.eqb Pos.eqb bind].
+  rewrite pl_seek_items by (apply tbl_fits_items; assumption).
   rewrite (matches_items_of wt r pid Hnd).
   destruct (emitted wt r pid); [|reflexivity].
   change [1; 0; 0; 0] with ([1; 0; 0; 0] ++ []). apply pl_seek_sentinel.
 Qed.
 
 Theorem get_list_into_bytes : forall {R A} (wt : list (wrow R)) (r : R) pid (dec : bool -> rdr A),
-  table_ok wt r -> pid <> 768 ->
+  table_ok wt r ->
   get_list dec (tbl_into_bytes wt r) pid = mapM (fun v => run (dec false) v) (emitted wt r pid).
 Proof.
-  intros R A wt r pid dec [Hnd Hp Hper Hf] H768. unfold get_list.
-  rewrite (tbl_into_bytes_eq wt r Hper), pl_hdr_into_bytes. cbn [hdr_endianness snd Z.eqb Pos.eqb bind].
-  rewrite pl_all_items.
-  2:{ constructor; [unfold item_ok, pid_ok; cbn [fst snd]; rewrite blen_nil; lia|apply tbl_fits_items; assumption]. }
-  cbn [matches fst snd]. replace (768 =? pid) with false by (symmetry; apply Z.eqb_neq; lia).
+  intros R A wt r pid dec [Hnd Hp Hper Hf]. unfold get_list, pl_all.
+  rewrite (tbl_into_bytes_eq wt r Hper), (pl_hdr_app4 PL_HEADER _ eq_refl), (drop4_app4 PL_HEADER _ eq_refl).
+  cbn [PL_HEADER pl_hdr nth hdr_endianness snd Z.eqb Pos.eqb bind].
+  rewrite pl_all_items by (apply tbl_fits_items; assumption).
   rewrite (matches_items_of wt r pid Hnd).
   change [1; 0; 0; 0] with ([1; 0; 0; 0] ++ []). rewrite pl_all_sentinel.
   destruct (mapM (fun v => run (dec false) v) (emitted wt r pid)); cbn [bind]; try reflexivity.
   rewrite app_nil_r. reflexivity.
 Qed.
 
+Lemma pl_new_ge4 : forall hdr rest, blen hdr = 4 -> pl_new (hdr ++ rest) = Ok tt.
+Proof.
+  intros hdr rest H. unfold pl_new. rewrite blen_app, H. pose proof (blen_nonneg rest).
+  replace (4 + blen rest <? 4) with false by (symmetry; apply Z.ltb_ge; lia). reflexivity.
+Qed.
 Lemma pl_new_into_bytes : forall {R} (wt : list (wrow R)) (r : R),
   (forall row v, In row wt -> In v (w_emit row r) -> periodic v) -> pl_new (tbl_into_bytes wt r) = Ok tt.
-Proof.
-  intros. unfold pl_new. rewrite tbl_into_bytes_eq by assumption. cbn [params_bytes fst snd].
-  rewrite <- app_assoc, blen_app. change (blen (param_bytes 768 [])) with 4.
-  replace (4 + blen (params_bytes (items_of wt r) ++ [1; 0; 0; 0]) <? 4) with false; [reflexivity|].
-  symmetry. apply Z.ltb_ge. pose proof (blen_nonneg (params_bytes (items_of wt r) ++ [1; 0; 0; 0])). lia.
-Qed.
+Proof. intros. rewrite tbl_into_bytes_eq by assumption. apply pl_new_ge4. reflexivity. Qed.
 
 (* ------------------------------------------------------------------ the generic round trip *)
-
 Lemma run_reader_into_bytes : forall {R A} (wt : list (wrow R)) (r : R) pid (rd : reader A) a,
-  table_ok wt r -> pid <> 768 -> reader_ok (emitted wt r pid) rd a ->
+  table_ok wt r -> reader_ok (emitted wt r pid) rd a ->
   run_reader pid rd (tbl_into_bytes wt r) = Ok a.
 Proof.
-  intros R A wt r pid rd a Hok H768 Hr. destruct rd as [k|X dec k]; cbn [run_reader reader_ok] in *.
-  - rewrite (seek_into_bytes wt r pid Hok H768).
-    rewrite (tbl_into_bytes_eq wt r (tk_periodic _ _ Hok)), pl_hdr_into_bytes. exact Hr.
-  - destruct Hr as [l [E1 E2]]. rewrite (get_list_into_bytes wt r pid dec Hok H768), E1. cbn [bind]. rewrite E2. reflexivity.
+  intros R A wt r pid rd a Hok Hr. destruct rd as [k|X dec k]; cbn [run_reader reader_ok] in *.
+  - rewrite (seek_into_bytes wt r pid Hok).
+    rewrite (tbl_into_bytes_eq wt r (tk_periodic _ _ Hok)), (pl_hdr_app4 PL_HEADER _ eq_refl). exact Hr.
+  - destruct Hr as [l [E1 E2]]. rewrite (get_list_into_bytes wt r pid dec Hok), E1. cbn [bind]. rewrite E2. reflexivity.
 Qed.
 
 Lemma read_rows_into_bytes : forall {R} (wt : list (wrow R)) (r : R) (rt : list rrow) (t : tuple_of rt),
@@ -551,8 +553,8 @@ Lemma read_rows_into_bytes : forall {R} (wt : list (wrow R)) (r : R) (rt : list 
 Proof.
   intros R wt r rt. induction rt as [|row rt IH]; intros t Hok Hr; cbn [read_rows rows_read_back tuple_of] in *.
   - destruct t. reflexivity.
-  - destruct t as [a t']. cbn [fst snd] in Hr. destruct Hr as [H768 [Ha Ht]].
-    rewrite (run_reader_into_bytes wt r _ _ a Hok H768 Ha). cbn [bind].
+  - destruct t as [a t']. cbn [fst snd] in Hr. destruct Hr as [Ha Ht].
+    rewrite (run_reader_into_bytes wt r _ _ a Hok Ha). cbn [bind].
     rewrite (IH t' Hok Ht). reflexivity.
 Qed.
 
@@ -576,59 +578,41 @@ Proof.
   intros. rewrite matches_app. cbn [matches].
   replace (fst u =? pid) with false by (symmetry; apply Z.eqb_neq; assumption). apply app_nil_r.
 Qed.
-Lemma nth_params_bytes_app : forall ps u tail i, ps <> [] -> (i < 4)%nat ->
-  nth i (params_bytes (ps ++ u) ++ tail) 0 = nth i (params_bytes ps ++ tail) 0.
-Proof.
-  intros ps u tail i Hne Hi. destruct ps as [|it ps]; [contradiction|].
-  cbn [app params_bytes]. unfold param_bytes. rewrite !le_bytes_2. cbn [app].
-  destruct i as [|[|[|[|i]]]]; try reflexivity. lia.
-Qed.
 
-Lemma run_reader_unknown : forall {A} pid (rd : reader A) ps u tail,
-  ps <> [] -> Forall item_ok ps -> item_ok u -> fst u <> pid ->
-  hdr_endianness (pl_hdr (params_bytes ps ++ tail)) = Ok false ->
-  run_reader pid rd (params_bytes (ps ++ [u]) ++ tail) = run_reader pid rd (params_bytes ps ++ tail).
+Lemma run_reader_unknown : forall {A} pid (rd : reader A) be hdr ps u tail,
+  blen hdr = 4 -> hdr_endianness (pl_hdr hdr) = Ok be -> Forall item_ok ps -> item_ok u -> fst u <> pid ->
+  run_reader pid rd (hdr ++ params_bytes be (ps ++ [u]) ++ tail) = run_reader pid rd (hdr ++ params_bytes be ps ++ tail).
 Proof.
-  intros A pid rd ps u tail Hne Hps Hu Hpid Hle.
-  assert (Hh : pl_hdr (params_bytes (ps ++ [u]) ++ tail) = pl_hdr (params_bytes ps ++ tail)).
-  { unfold pl_hdr. rewrite !nth_params_bytes_app by (try assumption; lia). reflexivity. }
+  intros A pid rd be hdr ps u tail Hh He Hps Hu Hpid.
   assert (Hall : Forall item_ok (ps ++ [u])) by (apply Forall_app; split; [assumption|constructor; [assumption|constructor]]).
-  assert (Es : seek_to_pid (params_bytes (ps ++ [u]) ++ tail) pid = seek_to_pid (params_bytes ps ++ tail) pid).
-  { unfold seek_to_pid. rewrite Hh, Hle. cbn [bind].
-    rewrite (pl_seek_items pid (ps ++ [u]) tail Hall), (pl_seek_items pid ps tail Hps).
+  assert (Es : seek_to_pid (hdr ++ params_bytes be (ps ++ [u]) ++ tail) pid = seek_to_pid (hdr ++ params_bytes be ps ++ tail) pid).
+  { unfold seek_to_pid, pl_seek. rewrite !(pl_hdr_app4 hdr _ Hh), !(drop4_app4 hdr _ Hh), He. cbn [bind].
+    rewrite (pl_seek_items be pid (ps ++ [u]) tail Hall), (pl_seek_items be pid ps tail Hps).
     rewrite (matches_snoc_other pid ps u Hpid). reflexivity. }
   destruct rd as [k|X dec k]; cbn [run_reader].
-  - rewrite Es, Hh. reflexivity.
-  - unfold get_list. rewrite Hh, Hle. cbn [bind].
-    rewrite (pl_all_items pid _ (ps ++ [u]) tail Hall), (pl_all_items pid _ ps tail Hps).
+  - rewrite Es, !(pl_hdr_app4 hdr _ Hh). reflexivity.
+  - unfold get_list, pl_all. rewrite !(pl_hdr_app4 hdr _ Hh), !(drop4_app4 hdr _ Hh), He. cbn [bind].
+    rewrite (pl_all_items be pid _ (ps ++ [u]) tail Hall), (pl_all_items be pid _ ps tail Hps).
     rewrite (matches_snoc_other pid ps u Hpid). reflexivity.
 Qed.
 
-(* unknown_pids_ignored: in a received little-endian list, a parameter whose pid is read by no
-   row of the table (unassigned, vendor specific >= 0x8000 i.e. negative as i16, PID_PAD, ...)
-   can be inserted after ANY prefix of well-formed parameters - hence anywhere before the
-   sentinel - without changing the result of from_bytes, whatever follows. *)
-Theorem unknown_pids_ignored : forall {R} (rt : list rrow) (build : tuple_of rt -> R) ps u tail,
-  ps <> [] -> Forall item_ok ps -> item_ok u ->
+(* unknown_pids_ignored: in a received list - big or little endian, as its header hdr says - a
+   parameter whose pid is read by no row of the table (unassigned, vendor specific >= 0x8000 i.e.
+   negative as i16, PID_PAD, ...) can be inserted after ANY prefix ps of well-formed parameters
+   - hence anywhere before the sentinel - without changing the result of from_bytes, whatever
+   follows (tail). *)
+Theorem unknown_pids_ignored : forall {R} (rt : list rrow) (build : tuple_of rt -> R) be hdr ps u tail,
+  blen hdr = 4 -> hdr_endianness (pl_hdr hdr) = Ok be -> Forall item_ok ps -> item_ok u ->
   (forall row, In row rt -> r_pid row <> fst u) ->
-  hdr_endianness (pl_hdr (params_bytes ps ++ tail)) = Ok false ->
-  tbl_from_bytes rt build (params_bytes (ps ++ [u]) ++ tail)
-  = tbl_from_bytes rt build (params_bytes ps ++ tail).
+  tbl_from_bytes rt build (hdr ++ params_bytes be (ps ++ [u]) ++ tail)
+  = tbl_from_bytes rt build (hdr ++ params_bytes be ps ++ tail).
 Proof.
-  intros R rt build ps u tail Hne Hps Hu Hrows Hle. unfold tbl_from_bytes.
-  assert (Hge : forall q, q <> [] -> pl_new (params_bytes q ++ tail) = Ok tt).
-  { intros q Hq. destruct q as [|it q]; [contradiction|]. unfold pl_new. cbn [params_bytes].
-    rewrite <- app_assoc, blen_app, blen_param_bytes.
-    pose proof (blen_nonneg (snd it)). pose proof (blen_nonneg (params_bytes q ++ tail)).
-    replace (4 + blen (snd it) + blen (params_bytes q ++ tail) <? 4) with false by (symmetry; apply Z.ltb_ge; lia).
-    reflexivity. }
-  assert (Hn : pl_new (params_bytes (ps ++ [u]) ++ tail) = pl_new (params_bytes ps ++ tail)).
-  { rewrite (Hge ps Hne). apply Hge. destruct ps; [contradiction|discriminate]. }
-  rewrite Hn. destruct (pl_new (params_bytes ps ++ tail)); cbn [bind]; try reflexivity.
-  assert (Er : read_rows rt (params_bytes (ps ++ [u]) ++ tail) = read_rows rt (params_bytes ps ++ tail)).
-  { clear build Hn. induction rt as [|row rt IH]; cbn [read_rows]; [reflexivity|].
-    rewrite (run_reader_unknown (r_pid row) (r_reader row) ps u tail Hne Hps Hu) by
-      (try assumption; intros C; apply (Hrows row (or_introl eq_refl)); symmetry; exact C).
+  intros R rt build be hdr ps u tail Hh He Hps Hu Hrows. unfold tbl_from_bytes.
+  rewrite !(pl_new_ge4 hdr _ Hh). cbn [bind].
+  assert (Er : read_rows rt (hdr ++ params_bytes be (ps ++ [u]) ++ tail) = read_rows rt (hdr ++ params_bytes be ps ++ tail)).
+  { clear build. induction rt as [|row rt IH]; cbn [read_rows]; [reflexivity|].
+    rewrite (run_reader_unknown (r_pid row) (r_reader row) be hdr ps u tail Hh He Hps Hu) by
+      (intros C; apply (Hrows row (or_introl eq_refl)); symmetry; exact C).
     rewrite IH by (intros row' Hr; apply Hrows; right; exact Hr). reflexivity. }
   rewrite Er. reflexivity.
 Qed.
@@ -678,6 +662,14 @@ Proof.
   apply total_bind; [apply total_u8|]. intros _.
   destruct (utf8_valid s); [apply total_ret|apply total_fail].
 Qed.
+Lemma total_cstring : forall be, rdr_total (cdr_r_string be).
+Proof.
+  intros. unfold cdr_r_string. apply total_bind; [apply total_u32|]. intros len.
+  destruct (len =? 0); [apply total_fail|].
+  apply total_bind; [apply total_bytes|]. intros s.
+  apply total_bind; [apply total_u8|]. intros _.
+  destruct (utf8_valid s); [apply total_ret|apply total_fail].
+Qed.
 Lemma total_seq_f : forall {A} (elem : rdr A) fuel count, rdr_total elem -> rdr_total (r_seq_f fuel elem count).
 Proof.
   intros A elem fuel. induction fuel as [|f IH]; intros count He s p; cbn [r_seq_f].
@@ -701,7 +693,7 @@ Qed.
 Lemma total_seek_to_pid : forall d pid, res_total (seek_to_pid d pid).
 Proof.
   intros d pid p. unfold seek_to_pid. destruct (hdr_endianness (pl_hdr d)) as [be|e|q] eqn:E; cbn [bind].
-  - apply total_pl_seek_f. - discriminate.
+  - unfold pl_seek, pl_seek_body. apply total_pl_seek_f. - discriminate.
   - unfold hdr_endianness in E. destruct (snd (pl_hdr d) =? 2); [discriminate|]. destruct (snd (pl_hdr d) =? 3); discriminate.
 Qed.
 Lemma total_hdr_endianness : forall h, res_total (hdr_endianness h).
@@ -732,7 +724,7 @@ Proof.
   - apply H. apply total_seek_to_pid.
   - unfold get_list. destruct (hdr_endianness (pl_hdr d)) as [be|e|q] eqn:E; cbn [bind].
     + destruct (pl_all be pid (fun v => run (dec be) v) d) as [l|e|q] eqn:E2; cbn [bind]; [discriminate|discriminate|].
-      exfalso. unfold pl_all in E2. revert E2. apply total_pl_all_f. intros v. apply total_run. apply H.
+      exfalso. unfold pl_all, pl_all_body in E2. revert E2. apply total_pl_all_f. intros v. apply total_run. apply H.
     + discriminate.
     + exfalso. exact (total_hdr_endianness _ q E).
 Qed.
@@ -814,19 +806,19 @@ Proof.
 Qed.
 
 (* the same, with the side condition as "the pid is not one the table reads" *)
-Corollary unknown_pids_ignored_tbl : forall {R} (rt : list rrow) (build : tuple_of rt -> R) ps u tail,
-  ps <> [] -> Forall item_ok ps -> item_ok u -> ~ In (fst u) (map r_pid rt) ->
-  hdr_endianness (pl_hdr (params_bytes ps ++ tail)) = Ok false ->
-  tbl_from_bytes rt build (params_bytes (ps ++ [u]) ++ tail)
-  = tbl_from_bytes rt build (params_bytes ps ++ tail).
+Corollary unknown_pids_ignored_tbl : forall {R} (rt : list rrow) (build : tuple_of rt -> R) be hdr ps u tail,
+  blen hdr = 4 -> hdr_endianness (pl_hdr hdr) = Ok be -> Forall item_ok ps -> item_ok u ->
+  ~ In (fst u) (map r_pid rt) ->
+  tbl_from_bytes rt build (hdr ++ params_bytes be (ps ++ [u]) ++ tail)
+  = tbl_from_bytes rt build (hdr ++ params_bytes be ps ++ tail).
 Proof.
-  intros R rt build ps u tail Hne Hps Hu Hni Hle. apply unknown_pids_ignored; try assumption.
+  intros R rt build be hdr ps u tail Hh He Hps Hu Hni. apply unknown_pids_ignored; try assumption.
   intros row Hin E. apply Hni. rewrite <- E. apply in_map. assumption.
 Qed.
 
 Lemma rows_nil : forall {R} (wt : list (wrow R)) (r : R), rows_read_back wt r [] tt.
 Proof. intros. exact I. Qed.
 Lemma rows_cons : forall {R} (wt : list (wrow R)) (r : R) pid ty (rd : reader ty) (t : list rrow) (a : ty) (rest : tuple_of t),
-  pid <> 768 -> reader_ok (emitted wt r pid) rd a -> rows_read_back wt r t rest ->
+  reader_ok (emitted wt r pid) rd a -> rows_read_back wt r t rest ->
   rows_read_back wt r (mkrrow pid ty rd :: t) (a, rest).
 Proof. intros. cbn [rows_read_back r_pid r_reader fst snd]. auto. Qed.
